@@ -57,11 +57,23 @@ func protoCallback(callback *callback.Callback) *pb.Callback {
 }
 
 func protoRecv(recv *pb.Recv) ([]byte, error) {
+	if recv == nil {
+		return nil, status.Error(codes.InvalidArgument, "The field recv is required.")
+	}
+
 	switch r := recv.Recv.(type) {
 	case *pb.Recv_Logical:
 		return json.Marshal(&r.Logical)
 	case *pb.Recv_Physical:
-		return json.Marshal(&receiver.Recv{Type: r.Physical.Type, Data: r.Physical.Data})
+		if r.Physical == nil {
+			return nil, status.Error(codes.InvalidArgument, "The field recv is required.")
+		}
+
+		b, err := json.Marshal(&receiver.Recv{Type: r.Physical.Type, Data: r.Physical.Data})
+		if err != nil {
+			return nil, status.Error(codes.InvalidArgument, "The field recv.data must be valid json.")
+		}
+		return b, nil
 	default:
 		return nil, status.Error(codes.InvalidArgument, "The field recv is required.")
 	}
